@@ -235,6 +235,18 @@ def search(ctx):
                     dev = float(np.abs(fl_ - fm).max() / scale)
                     if not (dev <= 5e-7):
                         ctx.violation("C08:mielens-vs-lens", "MieLens differs from the converged Lens(Mie) (orders %r) by %.3g of the peak field" % (orders, dev), dict(orders=list(orders), **info))
+                # the same sphere at another acceptance angle in the same interpreter (nothing computed for one angle may be reused for another)
+                la2 = float(rng.uniform(0.1, 1.4))
+                ctx.tried("mielens-vs-lens-second-angle", (round(la, 3), round(la2, 3)))
+                fm_b = F(MieLens(lens_angle=la2))
+                fa_b = F(AberratedMieLens(spherical_aberration=[0.0, 0.0], lens_angle=la2))
+                fl_b, orders_b, ch_b = lens_converged(det, sc, la2, pol, opt, float(krho.max()), kz, x)
+                if ch_b is not None and ch_b <= 2e-8:
+                    sc_b = max(1e-300, float(np.abs(fm_b).max()))
+                    dev = max(float(np.abs(fl_b - fm_b).max()), float(np.abs(fl_b - fa_b).max())) / sc_b
+                    if not (dev <= 5e-7):
+                        ctx.violation("C08:mielens-vs-lens:second-angle", "the same sphere evaluated at lens angle %.3f after %.3f: MieLens / AberratedMieLens(0) differ from the converged Lens(Mie) by %.3g" % (la2, la, dev),
+                                      dict(first_angle=la, second_angle=la2, **info))
                 # refining MieLens's own quadrature changes nothing
                 fm2 = F(MieLens(lens_angle=la, calculator_accuracy_kwargs=dict(quad_npts=200)))
                 dev = float(np.abs(fm2 - fm).max() / scale)
